@@ -29,6 +29,14 @@ CertBlockEnd / Manifest / ManifestCrc / VerifySigV21 / CheckDigest -> Accept wit
       model accepts the image of the format whoever signed and rejects a DER blob stored as delivered; every one is built in
       EVERY composition with a certificate block (v1: x RSA size), deterministically in both tiers, and decided by TLC like any
       other image.  The plug-in records its calls, so that the harness can confirm that the named back end did sign.
+ Strengthening round (seed C02-m10): the LENGTH CLASS OF THE ISK USER DATA is a dimension of the case space (MbiRomMC: UdPlan, udx,
+      UdRoutes): none / a multiple of 4 (small, the limit) / 1, 2, 3 mod 4 (small, just below the limit).  The GEN run emits every
+      (kind, curve, ISK, length) with the lemmas that the ROM model accepts the image of the format for every length class and rejects
+      user data exported padded but signed as given; every one is built in EVERY composition with certificate block v2.1 through three
+      routes: the configuration route (iskCertData), the classes with the family (CertBlockV21(family=...) + class constructor) and
+      the classes without a family.  The tool may refuse a length (a refusal exports nothing: recorded, not judged); whatever it
+      exports is walked and decided by TLC like any other image - IskOK: the ISK signature verifies over the bytes in front of it
+      exactly as they stand in the file.
 """
 import json
 import os
@@ -211,6 +219,8 @@ def make_cases(comps, tier, r, gen):
         c.update(common_opts(comp, mem, r, tier))
         c.update(kw)
         c["route"] = r.choice(["cli"] * 3 + ["api2"] * 3 + ["api"] * 14)
+        if c.get("udr", "cfg") != "cfg":
+            c["route"] = r.choice(["api", "api", "api2"])  # the class routes: an object, exported once or twice
         c["id"] = f"c{len(cases)}"
         cases.append(c)
 
@@ -353,7 +363,49 @@ def make_cases(comps, tier, r, gen):
                     add(comp, mem, be=be, v21={"curve": curve, "roots": [f"r{i}" for i in range(n)], "used": r.randrange(n), "isk": isk,
                                                "ud": r.choice([0, 0, 4, 32, mem["ud_limit"]]) if isk else 0, "cons": r.getrandbits(31)},
                         digest=(r.choice([None, "add", "explicit"]) if comp["man"] == 1 else None))
+    # ---- the length classes of the ISK user data TLC planned: every (curve, ISK, length) x every route x every composition with
+    # certificate block v2.1. Deterministic in both tiers.
+    for comp in comps:
+        if comp["kind"] == "dsc" or comp["cb"] != 21:
+            continue
+        mems = comp["members"]
+        by_tz = {}
+        for m in mems:
+            by_tz.setdefault(m["tz"], []).append(m)
+        reps = [v[0] for v in by_tz.values()]
+        for u in gen["udplan"][comp["kind"]]:
+            curve = {32: "p256", 48: "p384"}[u["curve"]]
+            isk = {64: "p256_isk", 96: "p384_isk"}[u["iskLen"]]
+            for udr in gen["udroutes"]:
+                for mem in ([r.choice(reps) if r.random() < 0.7 else r.choice(mems)] if quick else reps):
+                    n = r.randrange(1, 5)
+                    add(comp, mem, udr=udr, udcls=u["cls"],
+                        v21={"curve": curve, "roots": [f"r{i}" for i in range(n)], "used": r.randrange(n), "isk": isk, "ud": u["ud"],
+                             "cons": r.getrandbits(31)},
+                        digest=(r.choice([None, "add", "explicit"]) if comp["man"] == 1 else None))
     return cases
+
+
+def class_route(mbi0, case, v, family):
+    """The class route of a v2.1 image: the certificate block from CertBlockV21(...) - with the family or without one - and the image
+    from the class constructor, with the members a configuration-loaded object of the same case carries (all but the block)."""
+    from spsdk.crypto.signature_provider import SignatureProvider
+    from spsdk.utils.crypto.cert_blocks import CertBlockV21
+
+    rd = lambda name: open(K.p(name), "rb").read()  # noqa: E731
+    root_key = K.p(f"{v['curve']}_{v['roots'][v['used']]}.pem")
+    cb = CertBlockV21(root_certs=[rd(f"{v['curve']}_{nm}_pub.pem") for nm in v["roots"]], used_root_cert=v["used"], ca_flag=False,
+                      signature_provider=SignatureProvider.create(f"type=file;file_path={root_key}"), isk_cert=rd(f"{v['isk']}_pub.pem"),
+                      user_data=gen_bytes(v["ud"], case["seed"] + 3) if v["ud"] else None, constraints=v["cons"], family=family)
+    cb.calculate()
+    kw = {}
+    for base in type(mbi0).__mro__:
+        for name in getattr(base, "NEEDED_MEMBERS", {}):
+            kw[name] = getattr(mbi0, name)
+    if "cert_block" not in kw:
+        raise Machinery(f"class route: {type(mbi0).__name__} has no member cert_block")
+    kw.update(cert_block=cb, family=mbi0.family, revision=mbi0.revision)
+    return type(mbi0)(**kw)
 
 
 def set_signer(cfg, be, role, key_file, plain_key):
@@ -503,7 +555,7 @@ def build_once(case, comp, d, patch):
             signers["isk"] = set_signer(cb, case.get("be"), "isk", root_key, "mainRootCertPrivateKeyFile")
             cb["iskPublicKey"] = K.p(f"{v['isk']}_pub.pem")
             cb["iskCertificateConstraint"] = v["cons"]
-            if v["ud"]:
+            if v["ud"] and case.get("udr", "cfg") == "cfg":  # the class routes hand the same bytes to CertBlockV21(user_data=...)
                 open(f("iskdata.bin"), "wb").write(gen_bytes(v["ud"], case["seed"] + 3))
                 cb["iskCertData"] = f("iskdata.bin")
             signers["img"] = set_signer(cfg, case.get("be"), "img", K.p(f"{v['isk']}.pem"), "signPrivateKey")
@@ -536,6 +588,8 @@ def build_once(case, comp, d, patch):
         cls = get_mbi_class(cfg)
         mbi = cls()
         mbi.load_from_config(cfg, search_paths=[d])
+        if case.get("udr", "cfg") != "cfg":
+            mbi = class_route(mbi, case, case["v21"], case["family"] if case["udr"] == "class_family" else None)
         data = mbi.export()
         if case.get("route") == "api2":  # the same object exported a second time: that image has to boot as well
             data = mbi.export()
@@ -580,6 +634,8 @@ def feature_class(case):
         f.append(f"{sp['what']}@{sp['cut']}={sp['cls']}")
     if case.get("be"):
         f.append(f"be:{case['be']['img']}/{case['be']['isk']}")  # who signed the image / the ISK certificate
+    if case.get("udr"):
+        f.append(f"ud:{case['udcls']}{'' if case['v21']['ud'] < 8 else '-big'}/{case['udr']}")  # length class of the ISK user data / route
     return "+".join(f) or "base"
 
 
@@ -644,7 +700,22 @@ def mc_plan(v, g):
     special value classes of chained computations per kind."""
     v.add_mc(g)
     plan, small, special, backends, asis = {}, {}, {}, {}, 0
+    udplan, udroutes, padded = {}, None, 0
     for j in g.json_prints():
+        if j["udx"] != "exported":  # user data exported padded but signed as given: the lemma PaddedUnsignedRejected, not a plan
+            if j["verdict"] != "Rejected" or j["udOut"] == j["ud"]:
+                raise Machinery(f"GEN: the ROM model does not reject ISK user data that are exported padded and signed unpadded: {j}")
+            padded += 1
+            continue
+        if j["udShape"] and j["cls"] == "none" and j["sp"]["what"] == "none" and j["be"] == {"img": "key", "isk": "key", "emb": "nxp"}:
+            if j["verdict"] != "Accepted":
+                raise Machinery(f"GEN: the ROM model does not accept ISK user data of {j['ud']} bytes (kind {j['kind']})")
+            u = {"curve": j["curve"], "iskLen": j["isk"], "ud": j["ud"], "cls": j["udClass"]}
+            if u not in udplan.setdefault(j["kind"], []):
+                udplan[j["kind"]].append(u)
+            if udroutes not in (None, sorted(j["udRoutes"])):
+                raise Machinery("GEN: the routes of the user-data lane differ between lines")
+            udroutes = sorted(j["udRoutes"])
         if j["be"]["emb"] != "nxp":  # a DER blob stored as delivered: the lemma AsDeliveredRejected, not a plan
             if j["verdict"] != "Rejected":
                 raise Machinery(f"GEN: the ROM model does not reject a signature blob stored as delivered: {j}")
@@ -679,7 +750,18 @@ def mc_plan(v, g):
     want = {"v1_xip": 5, "v1_ram": 5, "v1_enc": 5, "v21_dig": 2 * 6 + 3 * 36, "v21_crc": 2 * 6 + 3 * 36}
     if {k: len(x) for k, x in backends.items()} != want or not asis:
         raise Machinery(f"GEN emitted an unexpected plan of signing back ends: { {k: len(x) for k, x in backends.items()} }, stored-as-delivered lines: {asis}")
-    return {"plan": plan, "small": small, "special": special, "backends": backends, "asis": asis}
+    for k in udplan:
+        udplan[k].sort(key=lambda u: (u["curve"], u["iskLen"], u["ud"]))
+    pairs = {(32, 64), (48, 64), (48, 96)}
+    for k in ("v21_dig", "v21_crc"):
+        got = {(u["curve"], u["iskLen"], u["cls"], u["ud"] >= 8) for u in udplan.get(k, ())}
+        need = {(c, i, cls, big) for (c, i) in pairs for cls in ("aligned", "r1", "r2", "r3") for big in (False, True)} | {(c, i, "none", False) for (c, i) in pairs}
+        if not need <= got:
+            raise Machinery(f"GEN: the plan of ISK user data lengths of kind {k} lacks {sorted(need - got)[:5]}")
+    if set(udroutes or ()) != {"cfg", "class_family", "class"} or not padded:
+        raise Machinery(f"GEN emitted an unexpected plan of user-data routes: {udroutes}; padded-but-unsigned lines: {padded}")
+    return {"plan": plan, "small": small, "special": special, "backends": backends, "asis": asis, "udplan": udplan, "udroutes": udroutes,
+            "padded": padded}
 
 
 def canary(good_trace):
@@ -716,13 +798,44 @@ def canary(good_trace):
     return [good] + bads
 
 
+def canary_ud(isk_trace):
+    """ISK user data off a multiple of 4, independent of the tree: the trace of a golden image with an ISK certificate and user data,
+    every offset behind the user data moved as if they were 1, 2, 3 bytes shorter (accepted: the ROM model decides no alignment),
+    and of each the copy whose ISK signature range stops where the user data AS GIVEN ended while the file carries them padded to the
+    next multiple of 4 - once reported by an honest executor (fact false), once with the fact claimed true (range clause)."""
+    moved = {"ReadIvt": ("fileLen", "totalLen"), "CertBlockV21": ("size",), "IskCert": ("udLen", "sigOff", "sigAt", "to"), "CertBlockEnd": ("at", "size"),
+             "Manifest": ("at",), "ManifestCrc": ("at", "to"), "VerifySigV21": ("to", "sigAt"), "CheckDigest": ("at", "to")}
+    goods, bads = [], []
+    for cut in (1, 2, 3):
+        g = json.loads(json.dumps(isk_trace))
+        g["id"] = f"canary-ud-good-{cut}"
+        for e in g["ev"]:
+            if e["ev"] not in moved and e["ev"] not in ("RootKeyRecord", "Accept"):
+                raise Machinery(f"canary: no rule to move the event {e['ev']} of the golden ISK trace")
+            for k in moved.get(e["ev"], ()):
+                e[k] -= cut
+        i = next(k for k, e in enumerate(g["ev"]) if e["ev"] == "IskCert")
+        if g["ev"][i]["udLen"] % 4 == 0 or g["ev"][i]["udLen"] < 4:
+            raise Machinery("canary: the golden ISK trace has no user data to shorten")
+        goods.append(g)
+        b1 = json.loads(json.dumps(g))
+        b1["id"] = f"canary-ud-padded-unsigned-fact-{cut}"
+        b1["ev"][i]["ok"] = False
+        b2 = json.loads(json.dumps(g))
+        b2["id"] = f"canary-ud-padded-unsigned-range-{cut}"
+        b2["ev"][i]["to"] -= 4 - cut  # the padding bytes of the file are left out of the verified range
+        bads += [b1, b2]
+    return goods, bads
+
+
 def canary_verdict(rej, can):
     got = {t["id"] for t in can if t["id"] in rej}
-    want = {t["id"] for t in can[1:]}
+    want = {t["id"] for t in can if "-good" not in t["id"]}
     if got != want:
         raise Machinery(f"canary failed: rejected {sorted(got)}, expected exactly {sorted(want)}")
-    return (f"known-good trace accepted; {len(want)} corrupted copies (signed range short by one word, crypto fact false, step skipped, "
-            f"ordinary image leaving through the unsettled-corner exit) rejected")
+    return (f"{len(can) - len(want)} known-good traces accepted (a golden image; its ISK twin with user data of 1, 2, 3 mod 4 bytes); {len(want)} "
+            f"corrupted copies (signed range short by one word, crypto fact false, step skipped, ordinary image leaving through the "
+            f"unsettled-corner exit, ISK user data padded in the file but outside the ISK signature) rejected")
 
 
 def anchors():
@@ -837,7 +950,7 @@ def run(tier):
     # (images with a special value / of the signing back-end lane are ordinary images as far as the regions go: not tampered with)
     seen, tam = set(), {}
     for c in cases:
-        if c.get("special") or c.get("be"):
+        if c.get("special") or c.get("be") or c.get("udr"):
             continue
         k = (c["comp"], key_class(c).split("-")[0], feature_class(c)) if tier == "quick" else (c["comp"], key_class(c), feature_class(c))
         if k not in seen:
@@ -851,7 +964,30 @@ def run(tier):
     for res in results:
         out[res["outcome"]] = out.get(res["outcome"], 0) + 1
     say(f"[C02] {len(results)} cases built and walked {v.timer.s()}s: {out}")
-    bad = [res for res in results if res["outcome"] != "exported"]
+    # the length classes of the ISK user data: a refusal (SPSDKError) of a length that is no multiple of 4 / above the family's limit
+    # exports nothing and is no judgement about an image - recorded; every other refusal counts as one of the builder below
+    ud_stats, ud_refusal = {}, set()
+    for res in results:
+        c = cases_by_id[res["id"]]
+        if c.get("udr"):
+            st = ud_stats.setdefault(f"{c['kind']}/{c['udcls']}/{c['udr']}", {"planned": 0, "exported": 0, "refused": 0})
+            st["planned"] += 1
+            st["exported"] += res["outcome"] == "exported"
+            mem = next(m for m in comps_by_id[c["comp"]]["members"] if (m["family"], m["target"], m["auth"]) == (c["family"], c["target"], c["auth"]))
+            if res["outcome"] == "refused" and (c["v21"]["ud"] % 4 or c["v21"]["ud"] > mem["ud_limit"]):
+                st["refused"] += 1
+                ud_refusal.add(res["id"])
+    n_plan = sum(len(gen["udplan"][cp["kind"]]) * len(gen["udroutes"]) for cp in comps if cp["kind"] != "dsc" and cp["cb"] == 21)
+    if len({(c["comp"], c["udr"], c["v21"]["curve"], c["v21"]["isk"], c["v21"]["ud"]) for c in cases if c.get("udr")}) != n_plan:
+        raise Machinery(f"the user-data lane does not cover the {n_plan} (composition, curve, ISK, length, route) combinations TLC planned")
+    v.extra["isk_user_data_lengths"] = ud_stats
+    v.extra["isk_user_data_refusals"] = sorted({f"{cases_by_id[res['id']]['udcls']}/{cases_by_id[res['id']]['udr']}: {res['exc']}"
+                                                for res in results if res["id"] in ud_refusal})[:12]
+    v.extra["padded_but_unsigned_rejected_by_model"] = gen["padded"]
+    say(f"[C02] ISK user data: {sum(st['exported'] for st in ud_stats.values())}/{sum(st['planned'] for st in ud_stats.values())} images of "
+        f"{len(ud_stats)} (kind, length class, route) classes exported, {len(ud_refusal)} lengths off a multiple of 4 refused by the tool "
+        f"(classes with an exported image off a multiple of 4: {sorted(k for k, st in ud_stats.items() if st['exported'] and k.split('/')[1] in ('r1', 'r2', 'r3'))})")
+    bad = [res for res in results if res["outcome"] != "exported" and res["id"] not in ud_refusal]
     v.extra["builder_refusals"] = [f"{cases_by_id[b['id']]['comp']}: {b['exc']}" for b in bad[:20]]
     if len(bad) > len(results) // 20:
         raise Machinery(f"{len(bad)} of {len(results)} configurations were refused by the builder, e.g. {bad[0]['exc']} for {cases_by_id[bad[0]['id']]}")
@@ -917,6 +1053,8 @@ def run(tier):
     anc = anchors()
     # known-good trace: a golden image (signed load-to-RAM image with HMAC), independent of the tree
     can = canary(next(t for t in anc if any(e["ev"] == "VerifySigV1" for e in t["ev"]) and any(e["ev"] == "CheckHmac" for e in t["ev"])))
+    ud_good, ud_bad = canary_ud(next(t for t in anc if any(e["ev"] == "IskCert" and e["udLen"] == 96 for e in t["ev"]) and t["ev"][-1]["ev"] == "Accept"))
+    can = can + ud_good + ud_bad
 
     n_acc, tam_stats, mismatch = decide(v, cases_by_id, comps_by_id, results, plan, tier, can, anc)
     v.extra["tamper_mismatches"] = mismatch[:20]
@@ -949,7 +1087,10 @@ def run(tier):
         "and the SIGNING BACK ENDS (who produces the image signature x who produces the ISK certificate signature: key file, signProvider type=file, "
         "the same with der_format=true, a plug-in SignatureProvider subclass of the minimal interface delivering r || s / ASN.1 DER / DER of a signature "
         "with a leading zero byte in r or s; every pair x P-256 / P-384 root x no ISK / P-256 / P-384 ISK for certificate block v2.1, every back end x "
-        "RSA 2048/3072/4096 for certificate block v1, in every composition with a certificate block); each "
+        "RSA 2048/3072/4096 for certificate block v1, in every composition with a certificate block) "
+        "and the LENGTH CLASSES OF THE ISK USER DATA (none / 4 / 96 / 1, 2, 3 / 93, 94, 95 bytes (thorough: + 5..7, 32..35, 61..64) x P-256 / P-384 root x "
+        "P-256 / P-384 ISK x route: iskCertData of the configuration, CertBlockV21(family=...) + class constructor, the same without a family; in every "
+        "composition with certificate block v2.1; a length the tool refuses exports nothing and is recorded, not judged); each "
         "case is built by load_from_config/export, walked by the executor and "
         "decided by TLC; non-trivial = the trace reaches Accept (unsettled corner: CertSplit); distinct by (composition, key class, feature class, "
         "length mod 4, TrustZone mode)"
@@ -970,6 +1111,10 @@ def run(tier):
         "the key store is a device-bound blob the ROM does not authenticate with the image: flips inside it are expected to be accepted",
         "ISK curves stronger than the root curve and manifest digests with another hash than the signature's are not generated (the tool itself says such images do not boot)",
         "v1 chains with mixed key sizes: one representative (2048-bit root, 4096-bit signing certificate)",
+        "ISK user data whose length is no multiple of 4: no offline source says whether the ROM refuses them; the tool refuses them wherever it knows the "
+        "family (configuration route, CertBlockV21(family=...)) and exports them when the classes are used without a family. The ROM model decides no "
+        "alignment: asserted for whatever IS exported are the clauses of every image - the ISK signature verifies under the selected root key over the "
+        "bytes in front of it exactly as they stand in the file, block size, manifest, image signature over all preceding bytes",
         "signing back ends: a provider is used through the documented configuration entry (signPrivateKey / mainRootCertPrivateKeyFile / signProvider) and "
         "implements the documented interface (sign, signature_length); DER blobs are the ones `cryptography` (OpenSSL) emits, i.e. minimal-length INTEGERs; "
         "providers that return anything else (wrong width, other containers) are not generated; a remote proxy provider (type=proxy) is not run",
